@@ -266,13 +266,13 @@ func calculateAmountCostLen(posting *ast.Posting, commodityFormats map[string]Nu
 	length := 0
 
 	if posting.Amount.Commodity.Position == ast.CommodityLeft {
-		length += utf8.RuneCountInString(posting.Amount.Commodity.Symbol)
+		length += utf8.RuneCountInString(commodityText(posting.Amount.Commodity))
 	}
 
 	length += utf8.RuneCountInString(formatAmountQuantity(posting.Amount, commodityFormats))
 
 	if posting.Amount.Commodity.Position == ast.CommodityRight {
-		length += 1 + utf8.RuneCountInString(posting.Amount.Commodity.Symbol)
+		length += 1 + utf8.RuneCountInString(commodityText(posting.Amount.Commodity))
 	}
 
 	if posting.Cost != nil {
@@ -282,11 +282,11 @@ func calculateAmountCostLen(posting *ast.Posting, commodityFormats map[string]Nu
 			length += 3 // " @ "
 		}
 		if posting.Cost.Amount.Commodity.Position == ast.CommodityLeft {
-			length += utf8.RuneCountInString(posting.Cost.Amount.Commodity.Symbol)
+			length += utf8.RuneCountInString(commodityText(posting.Cost.Amount.Commodity))
 		}
 		length += utf8.RuneCountInString(formatAmountQuantity(&posting.Cost.Amount, commodityFormats))
 		if posting.Cost.Amount.Commodity.Position == ast.CommodityRight {
-			length += 1 + utf8.RuneCountInString(posting.Cost.Amount.Commodity.Symbol)
+			length += 1 + utf8.RuneCountInString(commodityText(posting.Cost.Amount.Commodity))
 		}
 	}
 
@@ -367,7 +367,10 @@ func formatPostingWithOpts(posting *ast.Posting, alignment AlignmentInfo, commod
 	}
 
 	if posting.Comment != "" {
-		sb.WriteString("  ; ")
+		// Comment is the text after the ';' exactly as written, including any
+		// leading blank: re-emit it verbatim. Inserting a blank of our own made
+		// every formatting run add one more space.
+		sb.WriteString("  ;")
 		sb.WriteString(posting.Comment)
 	}
 
@@ -377,22 +380,34 @@ func formatPostingWithOpts(posting *ast.Posting, alignment AlignmentInfo, commod
 func writeAmountWithSign(sb *strings.Builder, amount *ast.Amount, commodityFormats map[string]NumberFormat) {
 	qty := formatAmountQuantity(amount, commodityFormats)
 
+	symbol := commodityText(amount.Commodity)
 	if amount.Commodity.Position == ast.CommodityLeft {
 		if amount.SignBeforeCommodity && len(qty) > 0 && (qty[0] == '-' || qty[0] == '+') {
 			sb.WriteByte(qty[0])
-			sb.WriteString(amount.Commodity.Symbol)
+			sb.WriteString(symbol)
 			sb.WriteString(qty[1:])
 		} else {
-			sb.WriteString(amount.Commodity.Symbol)
+			sb.WriteString(symbol)
 			sb.WriteString(qty)
 		}
 	} else {
 		sb.WriteString(qty)
-		if amount.Commodity.Symbol != "" {
+		if symbol != "" {
 			sb.WriteString(" ")
-			sb.WriteString(amount.Commodity.Symbol)
+			sb.WriteString(symbol)
 		}
 	}
+}
+
+// commodityText returns the commodity as it has to be written in a journal: a
+// symbol that was written in double quotes (because it contains blanks, digits
+// or punctuation) gets its quotes back. Without them the rewritten line parses
+// differently or not at all.
+func commodityText(c ast.Commodity) string {
+	if c.Quoted {
+		return "\"" + c.Symbol + "\""
+	}
+	return c.Symbol
 }
 
 // fitsFormat reports whether format can display qty without dropping digits.
